@@ -293,17 +293,12 @@ func checkTs(who, leg string, body []byte, pub *published, attach int) *pbt.Viol
 		type aref struct {
 			pes   int
 			first bool
+			n     int            // index of the frame inside its PES
+			adts  *codecref.ADTS // AAC: the frame's ADTS header
 		}
 		var recv [][]byte
 		var refs []aref
 		pess := res.ByPID(apid)
-		var asc *codecref.ASC
-		if cd.Audio == "aac" {
-			var err error
-			if asc, err = codecref.ParseASC(pub.asc); err != nil {
-				harness("published AudioSpecificConfig % x: %v", pub.asc, err)
-			}
-		}
 		for pi, pes := range pess {
 			if !pes.HasPTS {
 				return pbt.V(leg+"/audio/pes-without-pts", "%s: audio PES %d carries no PTS", who, pi)
@@ -311,7 +306,7 @@ func checkTs(who, leg string, body []byte, pub *published, attach int) *pbt.Viol
 			if cd.Audio == "opus" {
 				// no standard access-unit framing is demanded for the private PES: one PES payload per published frame
 				recv = append(recv, pes.Payload)
-				refs = append(refs, aref{pi, true})
+				refs = append(refs, aref{pes: pi, first: true})
 				continue
 			}
 			b := pes.Payload
@@ -333,12 +328,8 @@ func checkTs(who, leg string, body []byte, pub *published, attach int) *pbt.Viol
 				if fl < hl || pos+fl > len(b) {
 					return pbt.V(leg+"/adts/frame-length", "%s: audio PES %d, ADTS frame %d at offset %d: frame_length %d with %d bytes left in the PES (header % x)", who, pi, n, pos, fl, len(b)-pos, b[pos:pos+7])
 				}
-				if int(h.Profile) != asc.ObjectType-1 || int(h.FreqIndex) != asc.FreqIndex || int(h.ChannelConfig) != asc.ChannelConfig {
-					return pbt.V(leg+"/adts/inconsistent-with-asc", "%s: audio PES %d, ADTS frame %d: profile %d, sampling_frequency_index %d, channel_configuration %d; published AudioSpecificConfig % x: object type %d (profile %d), frequency index %d, channel configuration %d",
-						who, pi, n, h.Profile, h.FreqIndex, h.ChannelConfig, pub.asc, asc.ObjectType, asc.ObjectType-1, asc.FreqIndex, asc.ChannelConfig)
-				}
 				recv = append(recv, b[pos+hl:pos+fl])
-				refs = append(refs, aref{pi, n == 0})
+				refs = append(refs, aref{pes: pi, first: n == 0, n: n, adts: h})
 				pos += fl
 				n++
 			}
@@ -356,6 +347,22 @@ func checkTs(who, leg string, body []byte, pub *published, attach int) *pbt.Viol
 		var konstFrom int
 		for i := range recv {
 			want := pub.audio[off+i]
+			// every ADTS header agrees with the AudioSpecificConfig that was in force when its frame was published
+			// (the configuration may change mid-stream, also in the middle of a batched PES)
+			if h := refs[i].adts; h != nil {
+				asc, err := codecref.ParseASC(want.asc)
+				if err != nil {
+					harness("published AudioSpecificConfig % x: %v", want.asc, err)
+				}
+				if int(h.Profile) != asc.ObjectType-1 || int(h.FreqIndex) != asc.FreqIndex || int(h.ChannelConfig) != asc.ChannelConfig {
+					sig := leg + "/adts/inconsistent-with-asc"
+					if !bytes.Equal(want.asc, pub.asc) {
+						sig = leg + "/adts/stale-after-asc-change"
+					}
+					return pbt.V(sig, "%s: audio PES %d, ADTS frame %d (published at item %d): profile %d, sampling_frequency_index %d, channel_configuration %d; AudioSpecificConfig in force % x: object type %d (profile %d), frequency index %d, channel configuration %d (first configuration of the stream: % x)",
+						who, refs[i].pes, refs[i].n, want.item, h.Profile, h.FreqIndex, h.ChannelConfig, want.asc, asc.ObjectType, asc.ObjectType-1, asc.FreqIndex, asc.ChannelConfig, pub.asc)
+				}
+			}
 			if refs[i].first {
 				pes := pess[refs[i].pes]
 				k := (pes.PTS + mod33 - (90*uint64(want.ts))%mod33) % mod33
